@@ -536,3 +536,70 @@ _c16_prev = harnesses
 
 def harnesses(tier):   # noqa: F811
     return _c16_prev(tier) + [GetInUnit()]
+
+
+# --------------------------------------------------------------------------------------------------------------
+# substance + substance (mixtures): never a panic; the shared molar property is the amount-weighted sum.
+
+class SubstanceAdd(Harness):
+    name = 'substance.add'
+    props = ('C16', 'C04')
+    entry_name = '<&Substance as Add<&Substance>>::add'
+    loop_bound = 20
+    describe = ('substance + substance for two substances with a molar property each (arbitrary outputs) and arbitrary amounts carrying arbitrary '
+                'units: a Result, never a panic; when accepted, the property of the sum is amount1 * output1 + amount2 * output2')
+    bounds = ['one shared property per substance; units over kg, m']
+    expect_classes = ['Result::Ok', 'Result::Err']
+    _concrete = None
+    stubs = ((r'^Number::to_parts_simple$', lambda ex, nc, a: Struct('NumberParts', [none(ex)] * len(ex.prog.src.structs['NumberParts'])), 'Number::to_parts_simple -> empty parts'),
+             (r'^NumberParts::format$', lambda ex, nc, a: 'amount', 'NumberParts::format -> marker text'),
+             (r'^NumberPartsFmt::to_string$|^<NumberPartsFmt as ToString>::to_string$|^<NumberPartsFmt as Display>::fmt$', lambda ex, nc, a: 'amount', 'display of the amount -> marker'))
+
+    def build(self, ex, I):
+        subs = []
+        meta = []
+        mol = dim({'mol': (True, 1)})
+        for i in (1, 2):
+            a, o = I.real('a%d' % i), I.real('o%d' % i)
+            DA, entA = sym_dim(ex, I, 'da%d' % i, U, lo=-2, hi=2)
+            props = {'molar_mass': prop_struct(ex, number(rational(Fraction(1)), dup(mol)), 'amount', number(rational(o), dim({'kg': (True, 1), 'mol': (True, -1)})), 'mass')}
+            subs.append(substance(ex, number(rational(a), DA), 'stuff%d' % i, props))
+            meta.append((a, o, entA))
+        return [ref(subs[0]), ref(subs[1])], {'meta': meta}
+
+    def entry(self, ex, args, ctx):
+        return ex.call(None, '<&runtime::substance::Substance as std::ops::Add<&runtime::substance::Substance>>::add', list(args))
+
+    def post(self, ex, ctx, outcome):
+        (a1, o1, e1), (a2, o2, e2) = ctx['meta']
+        same = dims_equal_formula(e1, e2)
+        r = deref_all(outcome[1])
+        if not is_ok(r):
+            return [('a mixture is refused only when the two amounts differ in dimension', z3.Not(zbool(same)))]
+        s = deref_all(payload(r))
+        props = deref_all(deref_all(s.fields[1]).fields[1])
+        ent = props.ent.get('molar_mass')
+        if ent is None:
+            return [('the shared property is kept', False)]
+        out = ent[2].fields[ex.prog.src.structs['Property'].index('output')]
+        val, d = number_parts(out)
+        return [('amounts of different dimension cannot be mixed', same),
+                ('property of the mixture = amount1 * output1 + amount2 * output2', zreal(numeric_parts(val)[1]) == zreal(a1) * zreal(o1) + zreal(a2) * zreal(o2))]
+
+    def native(self, inputs, label):
+        return [{'mode': 'query', 'text': t} for t in ('gold kg + silver', 'gold + silver kg', '2 kg gold + 3 m silver', 'gold + silver', '2 kg gold + 3 kg silver')]
+
+    def judge(self, inputs, label, obs):
+        bad = ['`%s` panics: %s' % (t, o.get('panic') or o.get('render_panic')) for t, o in zip(('gold kg + silver', 'gold + silver kg', '2 kg gold + 3 m silver', 'gold + silver', '2 kg gold + 3 kg silver'), obs)
+               if o.get('outcome') == 'panic' or o.get('render_panic')]
+        for t, o in zip(('gold kg + silver', 'gold + silver kg', '2 kg gold + 3 m silver'), obs):
+            if o.get('outcome') == 'ok':
+                bad.append('`%s` is answered: %s' % (t, (o.get('display') or '')[:80]))
+        return bool(bad), '; '.join(bad[:2]) or 'mixtures of unlike amounts are refused, like amounts are summed'
+
+
+_c16_prev2 = harnesses
+
+
+def harnesses(tier):   # noqa: F811
+    return _c16_prev2(tier) + [SubstanceAdd()]
